@@ -284,50 +284,7 @@ func runC04(c *eng.Ctx) {
 			}
 		}
 		c.Ob("ORDER-commit", eng.FuncName(fn)+" replays-entries-after-snapshot", bound, fn.Pos(), "the replay loop is bounded by the index offset recorded when the compaction started")
-		// the newest entry per key wins: walking backwards, a key already seen is not overwritten
-		if mu := eng.Find(fn, func(in ssa.Instruction) bool { _, ok := in.(*ssa.MapUpdate); return ok }); len(mu) > 0 {
-			notFound := eng.BoolVal(false, func(v ssa.Value) bool {
-				ex, ok := v.(*ssa.Extract)
-				if !ok || ex.Index != 1 {
-					return false
-				}
-				_, isLookup := ex.Tuple.(*ssa.Lookup)
-				return isLookup
-			})
-			// the newest change of a key wins: walking from the newest entry to the oldest an entry is recorded only
-			// for keys not seen yet; walking from the oldest to the newest every entry overwrites
-			guarded := true
-			for _, m := range mu {
-				if hit, _ := eng.Search(eng.Entry(fn), eng.Is(m), eng.SearchOpt{Cut: eng.PassEdges(fn, notFound)}); hit != nil {
-					guarded = false
-				}
-			}
-			backwards, forwards := false, false
-			for _, rd := range eng.Find(fn, eng.PlainCallTo("weed/storage.readIndexEntryAtOffset")) {
-				if len(eng.CycleOf(rd.Block())) == 0 {
-					continue
-				}
-				if phi, ok := eng.Arg(rd.(*ssa.Call), 1).(*ssa.Phi); ok {
-					for i, ev := range phi.Edges {
-						if !phi.Block().Dominates(phi.Block().Preds[i]) {
-							continue
-						}
-						if step, isB := ev.(*ssa.BinOp); isB && step.X == ssa.Value(phi) {
-							backwards = backwards || step.Op == token.SUB
-							forwards = forwards || step.Op == token.ADD
-						}
-					}
-				}
-			}
-			okNewest := (backwards && !forwards && guarded) || (forwards && !backwards && !guarded && len(eng.PassEdges(fn, notFound)) == 0)
-			dir := "an undetermined direction"
-			if backwards && !forwards {
-				dir = "newest to oldest"
-			} else if forwards && !backwards {
-				dir = "oldest to newest"
-			}
-			c.Ob("ORDER-commit", eng.FuncName(fn)+" newest-entry-wins", okNewest, fn.Pos(), fmt.Sprintf("the newest change of a key made during the compaction wins (walk: %s; recorded only for unseen keys: %v)", dir, guarded))
-		}
+		newestEntryWins(c, "ORDER-commit", fn)
 
 		// ---------------- (4) literal bounds on the index entry
 		idSize, _ := namedConst(P, "weed/storage/types", "NeedleIdSize")
@@ -405,4 +362,55 @@ func expiryFeatures(fn *ssa.Function) (string, token.Pos) {
 	}
 	sort.Strings(ks)
 	return strings.Join(ks, "+"), pos
+}
+
+// newestEntryWins decides, for the replay of the index entries appended during a compaction (makeupDiff), that the
+// newest change of a key wins: walking from the newest entry to the oldest an entry is recorded only for keys not
+// seen yet; walking from the oldest to the newest every entry overwrites.
+func newestEntryWins(c *eng.Ctx, rule string, fn *ssa.Function) {
+	// the newest entry per key wins: walking backwards, a key already seen is not overwritten
+	if mu := eng.Find(fn, func(in ssa.Instruction) bool { _, ok := in.(*ssa.MapUpdate); return ok }); len(mu) > 0 {
+		notFound := eng.BoolVal(false, func(v ssa.Value) bool {
+			ex, ok := v.(*ssa.Extract)
+			if !ok || ex.Index != 1 {
+				return false
+			}
+			_, isLookup := ex.Tuple.(*ssa.Lookup)
+			return isLookup
+		})
+		// the newest change of a key wins: walking from the newest entry to the oldest an entry is recorded only
+		// for keys not seen yet; walking from the oldest to the newest every entry overwrites
+		guarded := true
+		for _, m := range mu {
+			if hit, _ := eng.Search(eng.Entry(fn), eng.Is(m), eng.SearchOpt{Cut: eng.PassEdges(fn, notFound)}); hit != nil {
+				guarded = false
+			}
+		}
+		backwards, forwards := false, false
+		for _, rd := range eng.Find(fn, eng.PlainCallTo("weed/storage.readIndexEntryAtOffset")) {
+			if len(eng.CycleOf(rd.Block())) == 0 {
+				continue
+			}
+			if phi, ok := eng.Arg(rd.(*ssa.Call), 1).(*ssa.Phi); ok {
+				for i, ev := range phi.Edges {
+					if !phi.Block().Dominates(phi.Block().Preds[i]) {
+						continue
+					}
+					if step, isB := ev.(*ssa.BinOp); isB && step.X == ssa.Value(phi) {
+						backwards = backwards || step.Op == token.SUB
+						forwards = forwards || step.Op == token.ADD
+					}
+				}
+			}
+		}
+		okNewest := (backwards && !forwards && guarded) || (forwards && !backwards && !guarded && len(eng.PassEdges(fn, notFound)) == 0)
+		dir := "an undetermined direction"
+		if backwards && !forwards {
+			dir = "newest to oldest"
+		} else if forwards && !backwards {
+			dir = "oldest to newest"
+		}
+		c.Ob(rule, eng.FuncName(fn)+" newest-entry-wins", okNewest, fn.Pos(), fmt.Sprintf("the newest change of a key made during the compaction wins (walk: %s; recorded only for unseen keys: %v)", dir, guarded))
+	}
+
 }
